@@ -161,7 +161,7 @@ func (e *evidence) write(path string) {
 	cov := map[string]interface{}{
 		"evaluations":         e.queries + e.syntactic,
 		"distinct_nontrivial": e.nontrivial,
-		"rule":                "evaluations = proof obligations decided = SMT queries discharged (branch feasibility, assertions, witnesses) + assertions whose condition the hash-consing term normaliser reduced to true (both sides the identical term over the symbolic inputs; counted separately as decided_by_term_identity); distinct_nontrivial = distinct (harness, parameters, path/configuration) that reached an assertion with at least one symbolic input in scope",
+		"rule":                "evaluations = proof obligations decided = SMT queries discharged (branch feasibility, assertions, witnesses) + assertions whose condition the hash-consing term normaliser reduced to true (both sides the identical term over the symbolic inputs; counted separately as decided_by_term_identity); distinct_nontrivial = distinct (harness, parameters, path/configuration) that reached an assertion with at least one symbolic input or one forked shape choice (program / tree / script opcode) in scope",
 		"decided_by_term_identity": e.syntactic,
 		"decided_by_solver":   e.queries,
 		"cross_solver_check":  map[string]interface{}{"second_solver": "cvc5 1.0.3", "assertion_queries_rechecked": e.crossChecked, "disagreements": e.crossDisagree, "second_solver_unknown": e.crossUnknown},
